@@ -2,6 +2,9 @@
 """Record the syntax-tree hash of the anchored baize files per property (fingerprints.json).
 Run after a model has been (re)validated against /repo's HEAD:  python3 tools/fingerprint.py [Cxx ...]"""
 import json, os, sys
+if os.path.realpath(sys.executable) != os.path.realpath("/venv/bin/python"):
+    # ast.dump differs between interpreter versions: record with the interpreter the checks run under
+    os.execv("/venv/bin/python", ["/venv/bin/python"] + sys.argv)
 V = os.path.dirname(os.path.dirname(os.path.abspath(__file__)))
 sys.path.insert(0, V)
 from harness import core
